@@ -348,7 +348,7 @@ def gen_case(rng: random.Random, tier: str, bias: str = ''):
             arg = rng.choice(['s', 't'])
         hops.append(dict(proc=rng.choice(['MainProcess', f'SpawnProcess-{rng.randint(1, 9)}', 'w ] [ x', 'Thread-é', '']),
                          rr=rng.randint(1, 6) if rr and (k > 0 or rng.random() < 0.2) else 0, arg=arg,
-                         tbdepth=rng.randint(1, 4)))
+                         tbdepth=rng.randint(1, 4), ctx=rng.random() < 0.3))
     if kind == 'boundary':
         b = rng.choice(['one-hop', 'dead-top', 'recv-top', 'empty-ens', 'vals-only', 'unpicklable', 'deep', 'all-explicit',
                         'dead-nested'])
@@ -874,7 +874,10 @@ def _run_case(case, T, info, res):
         ptok = T.tok(f'[{h["proc"]}] ')
         rr = '-'
         if h['rr']:
-            x = raise_and_catch(x, h['rr'])
+            # a received (remote) exception may also be raised again from inside another handler:
+            # __context__ is set but suppressed by the remote __cause__
+            ctx = LookupError('being handled at the hop') if (h.get('ctx') and is_remote_exception(x)) else None
+            x = raise_and_catch(x, h['rr'], context=ctx)
             rr = str(T.tok(fmt_own(x)))
         if h['arg'] == 's':
             text = f'explicit traceback text #{k}\n  of two lines\n'
